@@ -16,8 +16,8 @@ import (
 	"time"
 
 	"github.com/sheerbytes/sheerbytes/internal/app"
-	vrt "github.com/sheerbytes/sheerbytes/internal/verif/vrt"
 	"github.com/sheerbytes/sheerbytes/internal/verif/vlib"
+	vrt "github.com/sheerbytes/sheerbytes/internal/verif/vrt"
 )
 
 type Event struct {
@@ -41,28 +41,28 @@ func (e Event) String() string {
 }
 
 type invocation struct {
-	id        int
-	peer      string
-	ctx       context.Context
-	release   bool
-	result    error
-	returned  bool
+	id          int
+	peer        string
+	ctx         context.Context
+	release     bool
+	result      error
+	returned    bool
 	liveAtStart bool
-	leftSince bool
+	leftSince   bool
 }
 
 type world struct {
-	s        *app.SnapshotSender
-	max      int
-	clock    time.Time
-	epoch    int
-	seenAt   map[string]int
-	inv      []*invocation
-	starts   []string // start order (peers)
-	accepts  []string // accept order of peers currently waiting (for FIFO)
-	viol     []string
-	violCls  []string
-	afterEv  int
+	s       *app.SnapshotSender
+	max     int
+	clock   time.Time
+	epoch   int
+	seenAt  map[string]int
+	inv     []*invocation
+	starts  []string // start order (peers)
+	accepts []string // accept order of peers currently waiting (for FIFO)
+	viol    []string
+	violCls []string
+	afterEv int
 }
 
 var cur *world
